@@ -261,8 +261,10 @@ func c14run(env *core.Env, idx int) core.CaseResult {
 		if fsx.Mutates(op) || strings.HasPrefix(op.K, "H.W") || op.K == "H.Truncate" {
 			res.NTKeys = append(res.NTKeys, core.Hash([]any{cs, k}))
 		}
+		panicked := false
 		for i, r := range results {
 			if r.Panic != "" {
+				panicked = true
 				when := "later"
 				if i == at {
 					when = "faulted"
@@ -270,6 +272,9 @@ func c14run(env *core.Env, idx int) core.CaseResult {
 				res.Violate(fmt.Sprintf("C14|%s|%s|%s|panic-%s-op", cs.Shape, steps[i].K, w.hook.site, when), fmt.Sprintf("[%s] %s panicked (%s) %s a %s failure injected at store call #%d during %s", cs.Shape, steps[i], r.Panic, map[bool]string{true: "on", false: "after"}[i == at], w.hook.site, k, op), wit)
 				break
 			}
+		}
+		if panicked {
+			continue // a panic may have left a lock of the file system held: nothing more is asked of this instance
 		}
 		workDone := func() bool {
 			// success may be reported when the failed call was not needed: same result as the fault-free run and the same final state
